@@ -187,6 +187,7 @@ pub fn run_descs(shm: &Shm, warmed: &Warmed, descs: &[Value], per_child: usize, 
         let mut status: libc::c_int = 0;
         let mut timed_out: Option<String> = None;
         let mut spin = 0u32;
+        let mut last_beat = (u64::MAX, Instant::now());
         loop {
             // SAFETY: plain waitpid
             let r = unsafe { libc::waitpid(pid, &mut status, libc::WNOHANG) };
@@ -196,12 +197,24 @@ pub fn run_descs(shm: &Shm, warmed: &Warmed, descs: &[Value], per_child: usize, 
             if r < 0 {
                 panic!("waitpid failed");
             }
-            if t0.elapsed() > limit {
+            // progress = scheduler steps, finished runs or output of the child
+            let h = shm.header();
+            let beat = h.heartbeat.wrapping_add(h.run_pos << 40).wrapping_add(h.out_len);
+            if beat != last_beat.0 {
+                last_beat = (beat, Instant::now());
+            }
+            let stalled = last_beat.1.elapsed();
+            if t0.elapsed() > limit || stalled > Duration::from_secs(3) {
                 // who is stuck? running (spinning) or sleeping (blocked in the kernel on an un-hooked primitive)
                 let a = thread_states(pid);
                 std::thread::sleep(Duration::from_millis(50));
                 let b = thread_states(pid);
                 let running = a.iter().chain(b.iter()).any(|&c| c == 'R');
+                if running && t0.elapsed() <= limit && stalled < Duration::from_secs(12) {
+                    // busy but not at a scheduling point (a long compilation, single-stepping): give it time
+                    std::thread::sleep(Duration::from_millis(20));
+                    continue;
+                }
                 timed_out = Some(if running { "spinning".into() } else { "sleeping".into() });
                 // SAFETY: kill the stuck child
                 unsafe {
@@ -262,9 +275,9 @@ pub fn run_descs(shm: &Shm, warmed: &Warmed, descs: &[Value], per_child: usize, 
         let mut harness_error = None;
         if let Some(kind) = timed_out {
             if kind == "spinning" {
-                r.violations.push(("non-termination".into(), format!("run did not finish within {:?}; a thread of the run is still executing (not blocked)", limit)));
+                r.violations.push(("non-termination".into(), "run made no progress for 12 s (or exceeded its wall budget) while a thread of the run was still executing (not blocked)".to_string()));
             } else {
-                harness_error = Some(format!("simulator lost control: run did not finish within {limit:?} and every thread is sleeping (blocked on a primitive the seam does not cover?)"));
+                harness_error = Some("simulator lost control: the run made no progress for 3 s and every thread of it is sleeping (blocked on a primitive the seam does not cover?)".to_string());
             }
         } else if let Some((c, d)) = fatal_line {
             r.violations.push((c, d));
@@ -382,6 +395,11 @@ pub fn cmd_worker(args: &[String]) -> i32 {
         let mut l = out.lock();
         let _ = l.write_all(lines.as_bytes());
         let _ = l.flush();
+        drop(l);
+        // "cannot decide": once the simulator lost control there is no point in going on
+        if outcomes.iter().any(|o| o.harness_error.as_deref().is_some_and(|e| e.contains("lost control"))) {
+            break;
+        }
         block += nw;
     }
     let mut l = out.lock();
